@@ -174,100 +174,94 @@ Definition put_indexes (defs : fmap str) (key : str) (it : item) (ixs : fmap ind
 Definition delete_indexes (key : str) (ixs : fmap index) : fmap index :=
   map (fun ni => (fst ni, ix_delete key (snd ni))) ixs.
 
+(* result of a single-item write *)
+Inductive wres :=
+| WOk (it : option item) (fired : list nat)   (* Put: None; Update: the new item; Delete: the old item, if any *)
+| WCondFailed (cur : item) (fired : list nat) (* the condition was false of the stored item [cur] *)
+| WErr (e : errclass)
+| WPanic (p : panic)
+| WFuel.
+
+(* the write condition, evaluated on the item stored under the request's own key *)
+Definition check_cond (c : ictx) (t : table) (cur : item) (cond : option str) (names : fmap str) (vals : item)
+  : outcome (bool * list nat) :=
+  match cond with
+  | None => Ok (true, [])
+  | Some _ => omap (fun '(_, m, f) => (m, f)) (match_key c t (cond_query cond names vals) cur)
+  end.
+
 (* Table.Put *)
 Definition t_put (c : ictx) (t : table) (it : item) (cond : option str) (names : fmap str) (vals : item)
-  : table * outcome (list nat) :=
+  : table * wres :=
   match get_key (t_ks t) (t_defs t) it with
-  | inl _ => (t, Err Validation)
+  | inl _ => (t, WErr Validation)
   | inr key =>
-      let chk : outcome (bool * list nat) :=
-        match cond with
-        | None => Ok (true, [])
-        | Some _ => omap (fun '(_, m, f) => (m, f)) (match_key c t (cond_query cond names vals) (get_item t key))
-        end in
-      match chk with
+      match check_cond c t (get_item t key) cond names vals with
       | Ok (true, f) =>
           if validate_index_keys (t_defs t) (t_indexes t) it
           then let t1 := set_item t key it in
-               (with_indexes t1 (put_indexes (t_defs t) key it (t_indexes t1)), Ok f)
-          else (t, Err Validation)
-      | Ok (false, _) => (t, Err CondFailed)
-      | Err e => (t, Err e)
-      | Panic p => (t, Panic p)
-      | OutOfFuel => (t, OutOfFuel)
+               (with_indexes t1 (put_indexes (t_defs t) key it (t_indexes t1)), WOk None f)
+          else (t, WErr Validation)
+      | Ok (false, f) => (t, WCondFailed (get_item t key) f)
+      | Err e => (t, WErr e)
+      | Panic p => (t, WPanic p)
+      | OutOfFuel => (t, WFuel)
       end
   end.
 
-(* Table.Update; the failed-condition error carries the stored item (ALL_OLD) *)
-Inductive upd_result :=
-| UOk (it : item) (fired : list nat)
-| UCondFailed (old : item)
-| UErr (e : errclass)
-| UPanic (p : panic)
-| UFuel.
-
+(* Table.Update *)
 Definition t_update (c : ictx) (t : table) (key_item : item) (expr : str) (cond : option str)
-    (names : fmap str) (vals : item) : table * upd_result :=
+    (names : fmap str) (vals : item) : table * wres :=
   match get_key (t_ks t) (t_defs t) key_item with
-  | inl _ => (t, UErr Validation)
+  | inl _ => (t, WErr Validation)
   | inr key =>
       let stored := lookup key (t_data t) in
       let cur := match stored with Some i => i | None => [] end in
-      let chk : outcome (bool * list nat) :=
-        match cond with
-        | None => Ok (true, [])
-        | Some _ => omap (fun '(_, m, f) => (m, f)) (match_key c t (cond_query cond names vals) cur)
-        end in
-      match chk with
+      match check_cond c t cur cond names vals with
       | Ok (true, f) =>
           let base := match stored with Some i => i | None => key_item end in
           match interp_update c (t_name t) expr base vals names with
           | Ok (it', f') =>
               if validate_index_keys (t_defs t) (t_indexes t) it'
               then let t1 := set_item t key it' in
-                   (with_indexes t1 (put_indexes (t_defs t) key it' (t_indexes t1)), UOk it' (f ++ f'))
-              else (t, UErr Validation)
-          | Err e => (t, UErr e)
-          | Panic p => (t, UPanic p)
-          | OutOfFuel => (t, UFuel)
+                   (with_indexes t1 (put_indexes (t_defs t) key it' (t_indexes t1)), WOk (Some it') (f ++ f'))
+              else (t, WErr Validation)
+          | Err e => (t, WErr e)
+          | Panic p => (t, WPanic p)
+          | OutOfFuel => (t, WFuel)
           end
-      | Ok (false, _) => (t, UCondFailed cur)
-      | Err e => (t, UErr e)
-      | Panic p => (t, UPanic p)
-      | OutOfFuel => (t, UFuel)
+      | Ok (false, f) => (t, WCondFailed cur f)
+      | Err e => (t, WErr e)
+      | Panic p => (t, WPanic p)
+      | OutOfFuel => (t, WFuel)
       end
   end.
 
-(* Table.Delete; returns the old item (None when absent) *)
+(* Table.Delete *)
 Definition t_delete (c : ictx) (t : table) (key_item : item) (cond : option str) (names : fmap str) (vals : item)
-  : table * outcome (option item * list nat) :=
+  : table * wres :=
   match get_key (t_ks t) (t_defs t) key_item with
-  | inl _ => (t, Err Validation)
+  | inl _ => (t, WErr Validation)
   | inr key =>
-      let chk : outcome (bool * list nat) :=
-        match cond with
-        | None => Ok (true, [])
-        | Some _ => omap (fun '(_, m, f) => (m, f)) (match_key c t (cond_query cond names vals) (get_item t key))
-        end in
-      match chk with
+      match check_cond c t (get_item t key) cond names vals with
       | Ok (true, f) =>
           match lookup key (t_data t) with
-          | None => (t, Ok (None, f))
+          | None => (t, WOk None f)
           | Some old =>
               let pos := lower_bound key (t_sorted t) in
               let data' := remove key (t_data t) in
               if Nat.eqb pos (List.length (t_sorted t))
               then ({| t_name := t_name t; t_ks := t_ks t; t_defs := t_defs t; t_sorted := t_sorted t;
-                       t_data := data'; t_indexes := t_indexes t |}, Ok (Some old, f))
+                       t_data := data'; t_indexes := t_indexes t |}, WOk (Some old) f)
               else ({| t_name := t_name t; t_ks := t_ks t; t_defs := t_defs t;
                        t_sorted := remove_at pos (t_sorted t);
                        t_data := data';
-                       t_indexes := delete_indexes key (t_indexes t) |}, Ok (Some old, f))
+                       t_indexes := delete_indexes key (t_indexes t) |}, WOk (Some old) f)
           end
-      | Ok (false, _) => (t, Err CondFailed)
-      | Err e => (t, Err e)
-      | Panic p => (t, Panic p)
-      | OutOfFuel => (t, OutOfFuel)
+      | Ok (false, f) => (t, WCondFailed (get_item t key) f)
+      | Err e => (t, WErr e)
+      | Panic p => (t, WPanic p)
+      | OutOfFuel => (t, WFuel)
       end
   end.
 
